@@ -12,10 +12,14 @@
   its qubits (dict order), after every one- / two-qubit gate its depolarizing channel(s) and then
   one thermal-relaxation channel per qubit with the gate time of the gate's arity, nothing
   after gates on three or more qubits or after channels, the gates themselves unchanged and in
-  order.  The tie is tools/props/C19_ibmq.py: `fromDict`, `attachNoise` and `ibmqSpec` run
+  order.  The dictionary is taken as the user writes it: the keys are STRINGS, parsed by the model
+  (`T19_ibmq_refines_string_keys`); the parser reads numerals of any length with blanks around
+  them (`T19_ibmq_numeral`, `T19_ibmq_pair_key`, `T19_ibmq_qubit_key`), so registers with more than
+  ten qubits are covered by the same statement.  The tie is tools/props/C19_ibmq.py: `fromDict`, `attachNoise` and `ibmqSpec` run
   (lean/DriverC19b.lean) against the real `IBMQNoiseModel().from_dict(...).apply(circuit)`.
 -/
 import QV.Proofs.NoiseIBMQ
+import QV.Proofs.NoiseIBMQKeys
 namespace QV.Props.C19
 open QV QV.Noise
 
@@ -190,5 +194,52 @@ theorem T19_ibmq_two_qubit_global (P : IBMQParams V) (g : NGate) (a b : Nat) (hq
       .chan .thermal (.thermal t1 t2 P.gt2 P.ep) [a], .chan .thermal (.thermal t1 t2 P.gt2 P.ep) [b]] := by
   unfold specBlock specDepol specThermal
   simp [hm, hc, hq, h2, h3, h4]
+
+/-! ### the keys of the dictionary are strings -/
+
+/-- **The refinement for the dictionary as the user writes it** (string keys; the model parses
+them with `parseQubitKey` = `int(key)` and `parsePairKey` =
+`tuple(map(int, key.replace(" ", "").split("-")))`; a key that is not a numeral / a list of
+numerals makes both sides `none` = the Python raises `ValueError`). -/
+theorem T19_ibmq_refines_string_keys (mCls : Nat) (P : IBMQParamsS V) (queue : List NGate)
+    (hq : ∀ g ∈ queue, GateOk mCls g) : ibmqApplyS mCls P queue = ibmqSpecS P queue :=
+  ibmq_refines_S mCls P queue hq
+
+/-- **The parser reads numerals of any length**: `int(str(n)) = n` in the model, for every `n`
+(`decimal n` = the decimal numeral of `n`, most significant digit first). -/
+theorem T19_ibmq_numeral (n : Nat) : parseNat (decimal n) = some n := parseNat_decimal n
+
+/-- **Pair keys**: for all qubit indices `a b` (one digit or many) and any blanks around the
+numerals, the key `" a - b "` denotes the ordered pair `(a, b)` … -/
+theorem T19_ibmq_pair_key (a b k1 k2 k3 k4 : Nat) :
+    parsePairKey (blanks k1 ++ decimal a ++ blanks k2 ++ '-' :: (blanks k3 ++ decimal b ++ blanks k4))
+      = some [a, b] :=
+  parsePairKey_decimal a b k1 k2 k3 k4
+
+/-- … and a per-qubit key `" n "` denotes qubit `n`. -/
+theorem T19_ibmq_qubit_key (n k1 k2 : Nat) :
+    parseQubitKey (blanks k1 ++ decimal n ++ blanks k2) = some n :=
+  parseQubitKey_decimal n k1 k2
+
+/-- concrete instances on real strings: two-digit indices, both orientations, with blanks; and
+what is rejected. -/
+theorem T19_ibmq_key_examples :
+    parsePairKey "10-11".toList = some [10, 11] ∧ parsePairKey "3 - 10".toList = some [3, 10]
+      ∧ parsePairKey " 12 -0".toList = some [12, 0] ∧ parsePairKey "0-1".toList = some [0, 1]
+      ∧ parsePairKey "3--4".toList = none ∧ parsePairKey "".toList = none
+      ∧ parseQubitKey " 12 ".toList = some 12 ∧ parseQubitKey "1 2".toList = none := by
+  decide
+
+/-- a two-qubit gate on qubits `(10, 11)` gets the depolarizing channel of the key `"10-11"` and
+not the one of `"11-10"` or `"1-0"` (whole pipeline on string keys, evaluated by the kernel). -/
+theorem T19_ibmq_two_digit_pair_example :
+    ibmqApplyS 17
+      { dep1 := .other, dep2 := .dict [("1-0".toList, 1), ("10-11".toList, 2), ("11 - 10".toList, 3)],
+        t1 := .other, t2 := .other, gt1 := 0, gt2 := 0, ep := 0, ro := .other }
+      [⟨0, 10, [10, 11], false, false⟩, ⟨1, 10, [11, 10], false, false⟩, ⟨2, 10, [1, 0], false, false⟩]
+    = some [.gate ⟨0, 10, [10, 11], false, false⟩, .chan .depol (.depol 2) [10, 11],
+            .gate ⟨1, 10, [11, 10], false, false⟩, .chan .depol (.depol 3) [10, 11],
+            .gate ⟨2, 10, [1, 0], false, false⟩, .chan .depol (.depol 1) [0, 1]] := by
+  decide
 
 end QV.Props.C19
